@@ -9,10 +9,18 @@ package c17
 //   ValSet.cfg        rotation / twin sub-model (every set over 3 addresses, whole cycles)
 //   ValSetMods.cfg    Add / Update / Remove / updateStatus with changed lists
 //   ValSetClip.cfg    the same operators on a 5-bit machine (totals and priorities clip)
+//   ValSetReload.cfg / ValSetReloadMods.cfg  the action Reload(t): a holder's set is replaced by
+//                     what decoding its encoding yields (restart: SaveStatus .. LoadStatus) --
+//                     same validators and accums, the cached Proposer a detached object (tag
+//                     `pt`), the cached total gone -- in any state of the rotation cycles /
+//                     around structural changes, followed by any action; ReloadTransparent,
+//                     TwinAgreement, EvidenceProposerAgrees, CachesCoherent
 //   ValSetAsCoded.cfg IncrementAccum(k) exactly as /repo has it -- PathIndependence is
 //                     violated; the counterexample is a lead
+//   ValSetCopyIdentity.cfg  negative instance (Copy() keeps the proposer only if it is one of
+//                     the copied elements): TLC must report ReloadTransparent violated
 // and in the thorough tier also ValSetBig / ValSetModsBig / ValSetMods2 / ValSetClipBig /
-// ValSetClipMods.  Binding:
+// ValSetClipMods / ValSetReloadBig / ValSetReloadMods3 / ValSetClipReload.  Binding:
 //   1. the lead of the as-coded instance is replayed on the real ValidatorSet;
 //   2. every transition of every exported graph is replayed (tour + seeded walks, one child
 //      process per graph and instantiation) on the real types.ValidatorSet and the real
@@ -22,12 +30,20 @@ package c17
 //      TLC's state; the first time an edge / state is reached also: every order of the
 //      list, Copy() aliasing in both directions, every composition of a rotation by
 //      2..MaxK+1 against the single call, a whole window of `total` single steps;
+//      Reload = the codec the node uses for the status (ser on ValidatorsInfo and on
+//      NewStatus.Bytes()) and the real SaveStatus / LoadStatus / LoadStatusByHeight /
+//      LoadValidators on a MemDB followed by status.Copy() as node.NewNode does; every
+//      route's set, its Copy() and the copy of that are compared (proposer, every Accum,
+//      Hash, total) and one of them replaces the holder for the rest of the behaviour;
 //   3. seeded walks beyond the model's bounds (7 validators, extreme powers and accums,
 //      rotations by up to 12) against the Go transcription of the specification, which is
 //      cross-checked against TLC on every exported edge;
 //   4. consensus level (node.go): two real ConsensusState observers, one walking through
 //      the rounds, one skipping; proposer, acceptance of the proposal, fault evidence, the
-//      sets carried into the next height;
+//      sets carried into the next height; and (restart.go) one observer rebuilt from its own
+//      status DB at height 1 or 2 against one that kept running: proposers of both heights,
+//      LastValidators' proposer, proposal acceptance, validateBlock / VerifyFaultValEvidence
+//      of block 2, the sets carried into height 3;
 //   5. negative controls: a corrupted expectation must be rejected.
 // A mismatch on IncrementAccum(k >= 2) that is exactly what the specification's as-coded
 // operator predicts is reported under the one key path-dependence/increment-accum-k and
@@ -269,7 +285,9 @@ type jobResult struct {
 	Windows    int         `json:"windows"`
 	Perms      int         `json:"perms"`
 	Abandoned  int         `json:"abandoned"`
-	Commits    int         `json:"commits"` // consensus level: sets carried into the next height compared
+	Commits    int         `json:"commits"`  // consensus level: sets carried into the next height compared
+	Reloads    int         `json:"reloads"`  // sets persisted and loaded again (per route)
+	Restarts   int         `json:"restarts"` // consensus level: observers rebuilt from their status DB
 }
 
 type runner struct {
@@ -570,6 +588,58 @@ func (rn *runner) step(a jAct, pre, post [2]expSet, coded *rotView, viaCopy bool
 		r.A, r.B = r.B, nil
 	case "drop":
 		r.B = nil
+	case "reload":
+		// persist-and-reload: every route the node has must give back a set that -- itself, its
+		// Copy() (what node.NewNode hands out) and the copy of that -- is the set the
+		// specification decodes: proposer, every Accum, Hash, total
+		tgt, oth, ri := &r.A, r.B, 0
+		if a.T == "B" {
+			tgt, oth, ri = &r.B, r.A, 1
+		}
+		if *tgt == nil {
+			return &finding{key: "harness", desc: "no target for " + a.String()}
+		}
+		before := r.rotOf(*tgt)
+		var routes []reloaded
+		var err error
+		if p := guard(func() { routes, err = r.reload(*tgt, oth, a.T == "B") }); p != "" {
+			return &finding{key: "crash/" + op, desc: fmt.Sprintf("%s panicked: %s", a, p)}
+		}
+		if err != nil {
+			return fail("persist", fmt.Sprintf("the set the node persists cannot be loaded again: %v (set %s)", err, realString(in, *tgt)))
+		}
+		if !before.equal(r.rotOf(*tgt)) {
+			return fail("copy-aliasing", "persisting the set changed it")
+		}
+		inst := r.steps % len(routes)
+		for ri2, rt := range routes {
+			if !rn.firstEdge && ri2 != inst {
+				continue // every route the first time a job executes the edge, then the one that is installed
+			}
+			rn.res.Reloads++
+			var mm *mismatch
+			var c1, c2 *types.ValidatorSet
+			if p := guard(func() {
+				if mm, _ = r.observe(rt.vs, post[ri], true); mm != nil {
+					return
+				}
+				c1 = rt.vs.Copy()
+				c2 = c1.Copy()
+				if mm, _ = r.observe(c1, post[ri], false); mm != nil {
+					mm.text = "its Copy(): " + mm.text
+					return
+				}
+				if mm, _ = r.observe(c2, post[ri], false); mm != nil {
+					mm.text = "the Copy() of its Copy(): " + mm.text
+				}
+			}); p != "" {
+				return &finding{key: "crash/" + op, desc: fmt.Sprintf("%s: the set loaded by %s panicked: %s", a, rt.route, p)}
+			}
+			if mm != nil {
+				return fail(mm.class, fmt.Sprintf("holder %s persisted and loaded again by %s (before: %s): %s", a.T, rt.route, pre[ri], mm.text))
+			}
+		}
+		*tgt = routes[inst].vs
 	case "ustat":
 		list := make([]*types.Validator, len(a.List))
 		for i, v := range a.List {
@@ -1051,9 +1121,10 @@ func runChild(c *core.Ctx) {
 // ---- the check ---------------------------------------------------------------------
 
 type tlcJob struct {
-	cfg    string
-	export bool
-	res    *tlc.Result
+	cfg     string
+	export  bool
+	control bool // negative instance of the specification: TLC must report a violation
+	res     *tlc.Result
 }
 
 func run(c *core.Ctx) {
@@ -1075,9 +1146,12 @@ func run(c *core.Ctx) {
 	}
 	o.Trusted = []string{"TLC", "the Go transcription of ValSet.tla's operators where TLC's 32-bit integers cannot go (cross-checked against TLC on every exported edge)", "ed25519 key generation and amino/merkle hashing of the repository"}
 
-	quick := []tlcJob{{cfg: "ValSet.cfg", export: true}, {cfg: "ValSetMods.cfg", export: true}, {cfg: "ValSetClip.cfg", export: true}, {cfg: "ValSetAsCoded.cfg"}}
-	thorough := append(append([]tlcJob{}, quick[:3]...), tlcJob{cfg: "ValSetBig.cfg", export: true}, tlcJob{cfg: "ValSetModsBig.cfg", export: true}, tlcJob{cfg: "ValSetMods2.cfg", export: true},
-		tlcJob{cfg: "ValSetClipBig.cfg", export: true}, tlcJob{cfg: "ValSetClipMods.cfg", export: true}, tlcJob{cfg: "ValSetAsCoded.cfg"})
+	quick := []tlcJob{{cfg: "ValSet.cfg", export: true}, {cfg: "ValSetMods.cfg", export: true}, {cfg: "ValSetClip.cfg", export: true}, {cfg: "ValSetReload.cfg", export: true},
+		{cfg: "ValSetReloadMods.cfg", export: true}, {cfg: "ValSetAsCoded.cfg"}, {cfg: "ValSetCopyIdentity.cfg", control: true}}
+	thorough := append(append([]tlcJob{}, quick[:5]...), tlcJob{cfg: "ValSetBig.cfg", export: true}, tlcJob{cfg: "ValSetModsBig.cfg", export: true}, tlcJob{cfg: "ValSetMods2.cfg", export: true},
+		tlcJob{cfg: "ValSetClipBig.cfg", export: true}, tlcJob{cfg: "ValSetClipMods.cfg", export: true}, tlcJob{cfg: "ValSetReloadBig.cfg", export: true},
+		tlcJob{cfg: "ValSetReloadMods3.cfg", export: true}, tlcJob{cfg: "ValSetClipReload.cfg", export: true},
+		tlcJob{cfg: "ValSetAsCoded.cfg"}, tlcJob{cfg: "ValSetCopyIdentity.cfg", control: true})
 	jobs := quick
 	if c.Thorough() {
 		jobs = thorough
@@ -1099,6 +1173,14 @@ func run(c *core.Ctx) {
 			return
 		}
 		tlcInfo[j.cfg] = map[string]interface{}{"generated": j.res.Generated, "distinct": j.res.Distinct, "depth": j.res.Depth, "wall_s": j.res.Wall, "violated": j.res.Violated}
+		if j.control {
+			// a Copy() that drops a decoded set's proposer must violate the reload invariants
+			if j.res.Violated != "ReloadTransparent" && j.res.Violated != "TwinAgreement" {
+				c.Infra("vacuous specification: ValSet %s (CopyAlgo = identity) must violate ReloadTransparent / TwinAgreement: %s\n%s", j.cfg, j.res.Describe(), j.res.Tail)
+				return
+			}
+			continue
+		}
 		if !j.export {
 			// the as-coded instance: a violation of PathIndependence is the expected lead
 			if j.res.Violated == "" {
@@ -1155,6 +1237,8 @@ func run(c *core.Ctx) {
 		total.Perms += r.Perms
 		total.Abandoned += r.Abandoned
 		total.Commits += r.Commits
+		total.Reloads += r.Reloads
+		total.Restarts += r.Restarts
 		for _, f := range r.Findings {
 			if f.Key == "harness" {
 				c.Infra("replay: %s (%v)", f.Desc, f.Record)
@@ -1277,6 +1361,8 @@ func run(c *core.Ctx) {
 	c.SetExtra("list_orders_compared", total.Perms)
 	c.SetExtra("copies_whose_GetProposer_Accum_is_stale", total.Stale)
 	c.SetExtra("consensus_level_commits_compared", total.Commits)
+	c.SetExtra("sets_persisted_and_reloaded", total.Reloads)
+	c.SetExtra("consensus_level_restarts", total.Restarts)
 }
 
 // reproduceLead replays TLC's counterexample of the as-coded model on the real code.
